@@ -117,17 +117,24 @@ type atomicCell[T any] struct {
 	v T
 }
 
+//go:norace
 func (a *atomicCell[T]) load() (v T) {
 	simple(lazyObj(&a.o, "atomic"), false, "load", nil, func() { v = a.v })
 	return
 }
+
+//go:norace
 func (a *atomicCell[T]) store(v T) {
 	simple(lazyObj(&a.o, "atomic"), true, "store", nil, func() { a.v = v })
 }
+
+//go:norace
 func (a *atomicCell[T]) swap(v T) (old T) {
 	simple(lazyObj(&a.o, "atomic"), true, "swap", nil, func() { old = a.v; a.v = v })
 	return
 }
+
+//go:norace
 func (a *atomicCell[T]) rmw(f func(T) T) (nv T) {
 	simple(lazyObj(&a.o, "atomic"), true, "rmw", nil, func() { a.v = f(a.v); nv = a.v })
 	return
@@ -157,10 +164,19 @@ type integer interface {
 // AtomicInt replaces atomic.Int32/Int64/Uint32/Uint64.
 type AtomicInt[T integer] struct{ c atomicCell[T] }
 
-func (a *AtomicInt[T]) Load() T    { return a.c.load() }
-func (a *AtomicInt[T]) Store(v T)  { a.c.store(v) }
+//go:norace
+func (a *AtomicInt[T]) Load() T { return a.c.load() }
+
+//go:norace
+func (a *AtomicInt[T]) Store(v T) { a.c.store(v) }
+
+//go:norace
 func (a *AtomicInt[T]) Swap(v T) T { return a.c.swap(v) }
-func (a *AtomicInt[T]) Add(d T) T  { return a.c.rmw(func(c T) T { return c + d }) }
+
+//go:norace
+func (a *AtomicInt[T]) Add(d T) T { return a.c.rmw(func(c T) T { return c + d }) }
+
+//go:norace
 func (a *AtomicInt[T]) CompareAndSwap(o, n T) (ok bool) {
 	a.c.rmw(func(c T) T {
 		if c == o {
@@ -189,9 +205,16 @@ func (a *AtomicValue) Swap(v any) any { return a.c.swap(v) }
 // AtomicPointer replaces atomic.Pointer[T].
 type AtomicPointer[T any] struct{ c atomicCell[*T] }
 
-func (a *AtomicPointer[T]) Load() *T     { return a.c.load() }
-func (a *AtomicPointer[T]) Store(v *T)   { a.c.store(v) }
+//go:norace
+func (a *AtomicPointer[T]) Load() *T { return a.c.load() }
+
+//go:norace
+func (a *AtomicPointer[T]) Store(v *T) { a.c.store(v) }
+
+//go:norace
 func (a *AtomicPointer[T]) Swap(v *T) *T { return a.c.swap(v) }
+
+//go:norace
 func (a *AtomicPointer[T]) CompareAndSwap(o, n *T) (ok bool) {
 	a.c.rmw(func(c *T) *T {
 		if c == o {
@@ -219,21 +242,30 @@ func addrObj(p any) *object {
 	return o
 }
 
+//go:norace
 func AtomicLoad[T integer](p *T) (v T) {
 	simple(addrObj(p), false, "load", nil, func() { v = *p })
 	return
 }
+
+//go:norace
 func AtomicStore[T integer](p *T, v T) {
 	simple(addrObj(p), true, "store", nil, func() { *p = v })
 }
+
+//go:norace
 func AtomicAdd[T integer](p *T, d T) (v T) {
 	simple(addrObj(p), true, "add", nil, func() { *p += d; v = *p })
 	return
 }
+
+//go:norace
 func AtomicSwap[T integer](p *T, n T) (old T) {
 	simple(addrObj(p), true, "swap", nil, func() { old = *p; *p = n })
 	return
 }
+
+//go:norace
 func AtomicCAS[T integer](p *T, o, n T) (ok bool) {
 	simple(addrObj(p), true, "cas", nil, func() {
 		if *p == o {
